@@ -5,6 +5,7 @@ HERE="$(cd "$(dirname "$0")" && pwd)"
 cd "$HERE"
 export PYTHONPATH="$HERE/harness${PYTHONPATH:+:$PYTHONPATH}" PYTHONDONTWRITEBYTECODE=1
 # regenerate Gen/* from /repo (tables, constants), then build everything
+/venv/bin/python -c "import common; common.regen_ops_index()"
 if [ -f harness/extract.py ]; then /venv/bin/python harness/extract.py; fi
 cd lean
 lake build 2>&1 | tail -5
